@@ -802,9 +802,12 @@ class Interp:
         if post is not None:
             self.call(BoundM(post, o, owner), [], {})
 
-    def call_func(self, fv, args, kwargs, node=None, bound_cls=None):
+    def call_func_nostub(self, fv, args, kwargs):
+        return self.call_func(fv, args, kwargs, _skip_stub=True)
+
+    def call_func(self, fv, args, kwargs, node=None, bound_cls=None, _skip_stub=False):
         stub = self.stubs.get(fv.qualname)
-        if stub is not None:
+        if stub is not None and not _skip_stub:
             return stub(self, args, kwargs)
         self.call_depth += 1
         if self.call_depth > 60:
